@@ -89,6 +89,7 @@ theorem leaf_events (fs : List P) (h : ∀ x ∈ fs, IsLeaf x) : ∀ o, evFwd (r
     | skip n => simpa [rawEv, rawEv1] using ih'
     | ifThen csz cond t e => exact absurd hx (by simp [IsLeaf])
     | loop csz cond b => exact absurd hx (by simp [IsLeaf])
+    | loopX csz cond b1 csz2 cond2 t b2 => exact absurd hx (by simp [IsLeaf])
 
 theorem abs_nil_iff {cs : List Spec.CStmt} {ps : List P} (h : Abs cs ps) : cs = [] ↔ ps = [] := by
   cases h with
